@@ -162,7 +162,7 @@ def plan(tier, seed):
     jobs = [{"sub": "grid_exh", "ps": [1, 2, 3], "shard": 0, "nshards": 1, "seed": seed, "cost": 2}]
     for k in range(16):
         jobs.append({"sub": "grid_exh", "ps": [4], "shard": k, "nshards": 16, "seed": seed, "cost": 6})
-    n = scaled(4000 if tier == "quick" else 100000)
+    n = scaled(16000 if tier == "quick" else 240000)
     shards = 16 if tier == "quick" else 64
     for k in range(shards):
         jobs.append({"sub": "hyp", "seed": seed, "shard": k, "n": max(1, n // shards), "cost": 8})
